@@ -15,6 +15,10 @@ pub struct Case {
     /// number of chromosomes whose layout was nudged to stay outside known finding K1
     #[serde(default)]
     pub k1_nudged: u32,
+    /// seeded delay schedule for the cfg(bigtools_verif) hand-off points; the consumer side (the
+    /// switch to the real file) is held back so that later chromosomes stage data first
+    #[serde(default)]
+    pub delay: Option<(u64, u8)>,
 }
 
 pub struct C01;
@@ -30,7 +34,71 @@ pub fn make_case((mut input, opts): (BwInput, Opts)) -> Case {
         input,
         opts,
         k1_nudged: n,
+        delay: None,
     }
+}
+
+#[cfg(bigtools_verif)]
+fn schedule(d: Option<(u64, u8)>) {
+    use bigtools::utils::verif_hooks as h;
+    match d {
+        Some((seed, intensity)) => {
+            h::set_schedule(seed, intensity as u32);
+            h::set_bias((1 << 4) | (1 << 7) | (1 << 9) | (1 << 11));
+        }
+        None => {
+            h::set_schedule(0, 0);
+            h::set_bias(0);
+        }
+    }
+}
+#[cfg(not(bigtools_verif))]
+fn schedule(_d: Option<(u64, u8)>) {}
+
+/// several chromosomes, each large enough (> 8 KiB of section data) that a later chromosome has
+/// staged output in its temporary buffer before the real file is handed to it
+fn big_chroms() -> BoxedStrategy<Case> {
+    use proptest::sample::select;
+    (
+        proptest::collection::vec((700usize..2500, any::<u32>()), 2..=4),
+        any::<bool>(),
+        any::<bool>(),
+        select(vec![64u32, 1024, 65535]),
+        select(vec![1u8, 2, 4, 8]),
+        gen::source_kind(),
+        any::<bool>(),
+        proptest::option::weighted(0.7, (any::<u64>(), 30u8..=100)),
+    )
+        .prop_map(|(chroms, compress, inmemory, ips, threads, source, multipass, delay)| {
+            let mut cs = vec![];
+            for (ci, (n, seed)) in chroms.iter().enumerate() {
+                let mut x = *seed as u64 | 1;
+                let mut pos = 0u32;
+                let mut vals = Vec::with_capacity(*n);
+                for _ in 0..*n {
+                    x ^= x << 13;
+                    x ^= x >> 7;
+                    x ^= x << 17;
+                    let gap = (x % 3) as u32;
+                    let len = 1 + ((x >> 8) % 5) as u32;
+                    let v = f32::from_bits(((x >> 16) as u32) & 0xbf7f_ffff);
+                    vals.push(BwVal { s: pos + gap, e: pos + gap + len, v });
+                    pos += gap + len;
+                }
+                cs.push(BwChrom { name: format!("big{}", ci), size: pos + 3, vals });
+            }
+            let mut opts = Opts::default();
+            opts.compress = compress;
+            opts.inmemory = inmemory;
+            opts.items_per_slot = ips;
+            opts.threads = threads;
+            opts.source = source;
+            opts.multipass = multipass;
+            opts.channel_size = 100;
+            opts.zoom = ZoomSpec::Manual(vec![256, 4096]);
+            Case { input: BwInput { chroms: cs, unused: vec![] }, opts, k1_nudged: 0, delay }
+        })
+        .boxed()
 }
 
 fn big_case(n_items: usize, ips: u32, n_chroms: usize) -> Case {
@@ -66,6 +134,7 @@ fn big_case(n_items: usize, ips: u32, n_chroms: usize) -> Case {
         },
         opts,
         k1_nudged: 0,
+        delay: None,
     }
 }
 
@@ -93,7 +162,11 @@ impl Prop for C01 {
         tier.pick(20_000, 300_000)
     }
     fn strategy(tier: Tier) -> BoxedStrategy<Case> {
-        gen::bw_case(tier, false).prop_map(make_case).boxed()
+        prop_oneof![
+            12 => gen::bw_case(tier, false).prop_map(make_case),
+            1 => big_chroms(),
+        ]
+        .boxed()
     }
     fn fixed_cases(tier: Tier) -> Vec<Case> {
         let mut v = vec![big_case(3000, 7, 3), big_case(600, 1, 300)];
@@ -122,6 +195,7 @@ impl Prop for C01 {
                 },
                 opts: Opts::default(),
                 k1_nudged: 0,
+                delay: None,
             },
         )]
     }
@@ -132,7 +206,11 @@ impl Prop for C01 {
         let (max_sections, depth) = label_shape_bw(input, o, obs);
         obs.label_if(case.k1_nudged > 0, "excluded-K1-nudged");
         let sink = SharedSink::new();
-        if let Err(e) = drive::write_bw(input, o, sink.clone()) {
+        schedule(case.delay);
+        obs.label_if(case.delay.is_some(), "delay-schedule-consumer-held-back");
+        let wr = drive::write_bw(input, o, sink.clone());
+        schedule(None);
+        if let Err(e) = wr {
             obs.label("writer-refused");
             obs.notes.push(format!("writer refused generated input: {}", e));
             return Ok(());
